@@ -1,61 +1,5 @@
 package trie
 
-import (
-	"errors"
-
-	"github.com/ElrondNetwork/elrond-go/core"
-	"github.com/ElrondNetwork/elrond-go/data"
-	"github.com/ElrondNetwork/elrond-go/hashing/blake2b"
-	"github.com/ElrondNetwork/elrond-go/marshal"
-)
-
-
-type verifDB struct{ m map[string][]byte }
-
-func (d *verifDB) Put(key, val []byte) error { d.m[string(key)] = val; return nil }
-func (d *verifDB) Get(key []byte) ([]byte, error) {
-	v, ok := d.m[string(key)]
-	if !ok {
-		return nil, errors.New("not found")
-	}
-	return v, nil
-}
-func (d *verifDB) Remove(key []byte) error { delete(d.m, string(key)); return nil }
-func (d *verifDB) Close() error            { return nil }
-func (d *verifDB) IsInterfaceNil() bool    { return d == nil }
-
-type verifTSM struct{ db *verifDB }
-
-func (t *verifTSM) Database() data.DBWriteCacher                                  { return t.db }
-func (t *verifTSM) TakeSnapshot([]byte, bool, chan core.KeyValueHolder)            {}
-func (t *verifTSM) SetCheckpoint([]byte, chan core.KeyValueHolder)                 {}
-func (t *verifTSM) GetSnapshotThatContainsHash(rootHash []byte) data.SnapshotDbHandler { return nil }
-func (t *verifTSM) IsPruningEnabled() bool                                         { return false }
-func (t *verifTSM) IsPruningBlocked() bool                                         { return false }
-func (t *verifTSM) EnterPruningBufferingMode()                                     {}
-func (t *verifTSM) ExitPruningBufferingMode()                                      {}
-func (t *verifTSM) GetSnapshotDbBatchDelay() int                                   { return 0 }
-func (t *verifTSM) AddDirtyCheckpointHashes([]byte, data.ModifiedHashes) bool      { return false }
-func (t *verifTSM) Remove(hash []byte) error                                       { return t.db.Remove(hash) }
-func (t *verifTSM) Close() error                                                   { return nil }
-func (t *verifTSM) IsInterfaceNil() bool                                           { return t == nil }
-
-func verifNewTrie() *patriciaMerkleTrie {
-	tr, _ := NewTrie(&verifTSM{db: &verifDB{m: map[string][]byte{}}}, &marshal.GogoProtoMarshalizer{}, blake2b.NewBlake2b(), 5)
-	return tr
-}
-
-func eqBytes(a, b []byte) bool {
-	if len(a) != len(b) {
-		return false
-	}
-	r := true
-	for i := range a {
-		r = r && a[i] == b[i]
-	}
-	return r
-}
-
 // Soundness: proof of a present key must not verify for a different (absent) key Z.
 func Verif_C04_sound() {
 	tr := verifNewTrie()
